@@ -1,6 +1,6 @@
 (* C17 — Growing the trace never rewrites the past of past-only programs.  Property theorems only. *)
 From Coq Require Import List Bool Arith ZArith Lia.
-Require Import HT TEL TELext PrefixSpec.
+Require Import HT TEL TELext DecP PrefixSpec CoreRun PrefixImpl.
 (* For a program whose rules have past-only bodies and present-only heads (parts initial/always/dynamic), every
    temporal stable model over the trace of length h+2, cut to its first h+1 states, is a temporal stable model over
    the trace of length h+1. *)
@@ -11,5 +11,16 @@ Proof. exact C17_spec. Qed.
 Theorem C17_past_ignores_horizon : forall (A : Type) (h h' : nat) (H T : trace A) (p : tf A), past_only A p = true ->
   forall k, tsat A h H T p k = tsat A h' H T p k.
 Proof. exact tsat_past. Qed.
+(* Implementation side (model of the incremental run, Model/CoreRun.v): for every past-only core program - no final part,
+   no &final, any head form, past / initially atoms and &initial under any default negation - every stable model of the
+   program accumulated by steps 0..h+1 has a stable model of the program accumulated by steps 0..h with the same first h+1
+   states: extending the horizon only appends a state. *)
+Theorem C17_run_prefix : forall (A : Type) (P : list (srule A)), (forall r, In r P -> past_rule A r = true) ->
+  forall (h : nat) (T' : interp (gatom A)),
+  equilibriumP _ T' (union _ (prog A (S h) P) (aux_theory _ (dec A (S h)))) ->
+  exists T0 : interp (gatom A), equilibriumP _ T0 (union _ (prog A h P) (aux_theory _ (dec A h))) /\
+                                forall k a, k <= h -> tr A T0 k a = tr A T' k a.
+Proof. exact prefix_impl. Qed.
 Print Assumptions C17_prefix_closed.
 Print Assumptions C17_past_ignores_horizon.
+Print Assumptions C17_run_prefix.
